@@ -113,6 +113,7 @@ func TestVerif_C16_exec_roles(t *testing.T) {
 	}
 	for i := 0; i < n; i++ {
 		home := &vC16Home{readers: map[cciptypes.ChainSelector][]int{}, cand: 2}
+		first := true
 		draw := func() {
 			home.mu.Lock()
 			defer home.mu.Unlock()
@@ -126,6 +127,14 @@ func TestVerif_C16_exec_roles(t *testing.T) {
 				home.readers[ch] = rs
 			}
 			home.cand = byte(r.Range(0, 2))
+			if !first && r.Chance(1, 5) {
+				// the home chain answers with NO chain configuration at all (a successful, empty poll): nobody is a
+				// destination writer any more (seeded change C16-6 kept the previous role map in that case)
+				for ch := range home.readers {
+					delete(home.readers, ch)
+				}
+			}
+			first = false
 		}
 		draw()
 		hc := reader.NewHomeChainConfigPoller(home, mocks.NullLogger, 3*time.Millisecond,
